@@ -351,8 +351,9 @@ OPEN_DONE = '"i": 0, "ph": "e"'
 
 def spawn_child(root, ops, crash_at, status_path, pause=None, wait_for=None):
     """fork; the child runs Open + ops under the audit hook and dies at event `crash_at` (None: runs to the end).
-    pause = {"label": step name, "paused": marker path, "go": flag path}: the child stops BEFORE its first audited event with
-            that design-layer label until the flag file exists (two-process schedules);
+    pause = [{"label": step name, "opi": operation index (0 = Open), "paused": marker path, "go": flag path}, ...]: hold points in
+            the order they are met: the child stops BEFORE the first audited event of that design-layer step of that operation
+            until the flag file exists (two-process schedules dictated by a TLC counterexample);
     wait_for = status file of another child: Open starts only after that child's Open has returned."""
     pid = os.fork()
     if pid != 0:
@@ -363,16 +364,18 @@ def spawn_child(root, ops, crash_at, status_path, pause=None, wait_for=None):
         if wait_for is not None:
             _wait_file(wait_for, OPEN_DONE)
         A.install()
-        state = {"kind": "Open", "events": [], "done": False}
+        state = {"kind": "Open", "opi": 0, "events": [], "hp": 0}
 
         def on_event(kind, rel, detail):
-            if state["done"]:
+            if state["hp"] >= len(pause):
                 return
             state["events"].append([kind, rel, detail])
-            if label_events(state["events"], state["kind"])[-1] == pause["label"]:
-                state["done"] = True
-                os.close(os.open(pause["paused"], os.O_WRONLY | os.O_CREAT, 0o644))
-                _wait_file(pause["go"])
+            h = pause[state["hp"]]
+            labs = label_events(state["events"], state["kind"])
+            if state["opi"] == h["opi"] and labs[-1] == h["label"] and (len(labs) == 1 or labs[-2] != labs[-1]):
+                state["hp"] += 1
+                os.close(os.open(h["paused"], os.O_WRONLY | os.O_CREAT, 0o644))
+                _wait_file(h["go"])
 
         A.arm(root, crash_at=crash_at, record=crash_at is None, on_event=on_event if pause else None)
         _status(fd, {"i": 0, "ph": "b", "n": A.count()})
@@ -384,7 +387,7 @@ def spawn_child(root, ops, crash_at, status_path, pause=None, wait_for=None):
             ctx = None
         if ctx is not None:
             for i, op in enumerate(ops, start=1):
-                state["kind"], state["events"] = op["e"], []
+                state["kind"], state["opi"], state["events"] = op["e"], i, []
                 _status(fd, {"i": i, "ph": "b", "n": A.count()})
                 ev = do_op(ctx, op)
                 _status(fd, {"i": i, "ph": "e", "n": A.count(), "ev": ev})
